@@ -10,11 +10,16 @@ H <call>|<call>|...            parse history on ONE instance.  <call> = S:<cps>:
 L v=<ver> m=<match>;<match>;...  <match> = <g><n>:<cps>, g∈{l,s,n,u,w} the regex group, n = 1 if
                                `name_pattern.match(text)`.
    answer: model=<sym>,<sym>,...;err=<err>;last=<sym> spec=<ok|bad>
-E pfx=<cps> k=s code=<cps>  |  E pfx=<cps> k=q uri=<cps> p=<cps> l=<cps>      `xpath_error`
+E ns=<pfx cps>~<uri cps>;... k=s code=<cps>  |  E ns=... k=q uri=<cps> p=<cps> l=<cps>      `xpath_error`
    answer: model=<class>,<code cps>,<raisedInside> spec=<ok|bad>
+X cls=<PyClass> site=<file:function> n=<number of tokens> syms=<cps>,<cps>,...   trigger predicate of the
+                               known escapes (EPV.C03Esc.trigger)
+   answer: inK=<finding id | ->
+T                              dump of the trigger table: id;cls;site;sym,sym,..;minToks|...
 -/
 import EPV.Proto
 import EPV.Gen.C03Tables
+import EPV.Spec.EscapeTriggers
 open EPV.Proto EPV.PState EPV.Lexer EPV.XErr
 
 def decodeStr (s : String) : String :=
@@ -123,7 +128,11 @@ def answerL (fs : List (String × String)) : String :=
 /-! ## E: xpath_error -/
 
 def answerE (fs : List (String × String)) : String :=
-  let pfx := decodeStr (field fs "pfx")
+  let nsList := (((field fs "ns").splitOn ";").filter (· ≠ "")).filterMap fun kv =>
+    match kv.splitOn "~" with
+    | [a, b] => some (decodeStr a, decodeStr b)
+    | _ => none
+  let pfx := computePrefix nsList
   let arg : CodeArg :=
     if field fs "k" == "q" then .qname (decodeStr (field fs "uri")) (decodeStr (field fs "p")) (decodeStr (field fs "l"))
     else .str (decodeStr (field fs "code"))
@@ -131,7 +140,21 @@ def answerE (fs : List (String × String)) : String :=
   let ok := isEPE EPV.Gen.C03.classGraph r.cls && !r.code.isEmpty
   s!"model={r.cls},{encodeStr r.code},{if r.raisedInside then 1 else 0} spec={if ok then "ok" else "bad"}"
 
+/-! ## X / T: trigger predicates of the known escapes -/
+
+def answerX (fs : List (String × String)) : String :=
+  let syms := (((field fs "syms").splitOn ",").filter (· ≠ "")).map decodeStr
+  match EPV.C03Esc.trigger (field fs "cls") (field fs "site") syms ((nat? (field fs "n")).getD 0) with
+  | some id => "inK=" ++ id
+  | none => "inK=-"
+
+def answerT : String :=
+  "|".intercalate (EPV.C03Esc.rows.map fun r =>
+    s!"{r.id};{r.cls};{r.site};{",".intercalate r.anySym};{r.minToks}")
+
 def answer (line : String) : String :=
+  if line.startsWith "X " then answerX (fields (line.drop 2).toString) else
+  if line == "T" then answerT else
   if line.startsWith "H " then answerH (line.drop 2).toString
   else if line.startsWith "L " then answerL (fields (line.drop 2).toString)
   else if line.startsWith "E " then answerE (fields (line.drop 2).toString)
